@@ -1232,3 +1232,87 @@ func c16OperandReadUnfiltered(ctx *core.Ctx, r *core.Report) {
 	r.Ob("operand-read-unfiltered", "node.Selection.Get/request", ctx.Pos(f.Pos()), hasPath == hasBase,
 		"Selection.Get builds its field request with a path but no base (or the reverse): a fields= filter on the same request then matches the operand's absolute path against its selector, hides the operand, and every when/where comparison is false")
 }
+
+// c13RowNumbersNonNegative: the list readers index their rows with the row number
+// of the request and test its upper bound only; fc.range must therefore never
+// yield a negative row. NewListRange parses each number from a piece of the text
+// that cannot hold a '-' (an element of strings.Split(rows, "-")), or tests the
+// parsed number for < 0.
+func c13RowNumbersNonNegative(ctx *core.Ctx, r *core.Report) {
+	f := ctx.Fn("node", "NewListRange")
+	if f == nil {
+		r.Fatalf("anchor node.NewListRange not found")
+		return
+	}
+	n := 0
+	for _, c := range core.CallSites(f) {
+		cal := core.StaticCallee(c)
+		if cal == nil || core.FnName(cal) != "strconv.ParseInt" {
+			continue
+		}
+		n++
+		ok := false
+		// the text is an element of a split on "-"
+		if u, isU := core.Strip(c.Common().Args[0]).(*ssa.UnOp); isU {
+			if ia, isIa := u.X.(*ssa.IndexAddr); isIa {
+				if sp, isCall := core.Strip(ia.X).(*ssa.Call); isCall {
+					if sc := core.StaticCallee(sp); sc != nil && core.FnName(sc) == "strings.Split" {
+						if sep, isC := core.ConstString(sp.Common().Args[1]); isC && sep == "-" {
+							ok = true
+						}
+					}
+				}
+			}
+		}
+		// or the number is compared with 0 afterwards
+		if !ok && c.Value() != nil {
+			for _, ref := range *c.Value().Referrers() {
+				if ex, isEx := ref.(*ssa.Extract); isEx && ex.Index == 0 && ex.Referrers() != nil {
+					for _, r2 := range *ex.Referrers() {
+						if bo, isBo := r2.(*ssa.BinOp); isBo && (bo.Op == token.LSS || bo.Op == token.GEQ) {
+							if k, isC := core.ConstInt(bo.Y); isC && k == 0 {
+								ok = true
+							}
+						}
+					}
+				}
+			}
+		}
+		r.Ob("row-numbers-non-negative", fmt.Sprintf("node.NewListRange/ParseInt#%d", n), ctx.Pos(c.Pos()), ok,
+			"a row number of fc.range is parsed from text that may begin with '-' and is not tested for < 0: `list!-1-` yields start row -1, and the list readers (which test the upper bound only) index out of range")
+	}
+	r.Floor("row-numbers-non-negative", n, 2)
+}
+
+// c13SourceChooseCannotFail: the iterator over a container's members
+// (containerMetaList.lookAhead) has no error channel and panics when a node's
+// Choose fails — a recorded known finding. What keeps request content from reaching
+// that panic is that the Choose of the library's own edit sources (XML reader, JSON
+// reader, reflection nodes) never returns an error: every return has a nil error.
+func c13SourceChooseCannotFail(ctx *core.Ctx, r *core.Report) {
+	var fns []*ssa.Function
+	if f := ctx.Method("nodeutil", "XmlNode", "Choose"); f != nil {
+		fns = append(fns, f)
+	}
+	for _, outer := range []*ssa.Function{ctx.Fn("nodeutil", "JsonContainerReader"), ctx.Method("nodeutil", "Reflect", "childMap")} {
+		if outer == nil {
+			continue
+		}
+		for _, clo := range outer.AnonFuncs {
+			ps := clo.Signature.Params()
+			if ps.Len() == 2 && strings.HasSuffix(core.TypeName(ps.At(1).Type()), "meta.Choice") {
+				fns = append(fns, clo)
+			}
+		}
+	}
+	n := 0
+	for _, f := range fns {
+		for _, ret := range core.Returns(f) {
+			n++
+			ops := core.RetOperands(ret)
+			r.Ob("source-choose-cannot-fail", fmt.Sprintf("%s/return#%d", core.FnName(f), n), ctx.Pos(ret.Pos()), core.IsNilConst(ops[len(ops)-1]),
+				"the Choose of an edit source returns an error: containerMetaList.lookAhead (which has no error channel — known finding) turns it into a panic, so a document holding nodes of two cases crashes the request instead of failing it")
+		}
+	}
+	r.Floor("source-choose-cannot-fail", n, 4)
+}
